@@ -517,21 +517,38 @@ fn run_case_inner(case: &Case, c: &mut Cluster) -> CaseReport {
             let mut ok = true;
             last_diff.clear();
             'outer: for s in 0..3 {
+                // weights are compared with the model only while no node was killed: after a kill a heartbeat may
+                // re-create an instance on the new responsible node, and a beat carries no weight the server uses
+                let strict_weight = !labels.contains("node_killed");
                 let want: BTreeSet<(String, u32, bool, bool, String)> = model
                     .iter()
                     .filter(|((sv, _), _)| *sv == s)
                     .map(|((_, a), (_, w))| {
                         let (ip, port) = addr_of(*a);
-                        (ip, port, true, true, format!("{:.1}", *w as f64))
+                        (ip, port, true, true, if strict_weight { format!("{:.1}", *w as f64) } else { String::new() })
                     })
                     .collect();
+                let mut first: Option<(usize, BTreeSet<(String, u32, bool, bool, String)>)> = None;
                 for nd in &live {
                     match list(c, *nd, SVCS[s]) {
                         Ok(got) => {
-                            if got != want {
+                            // (1) the statement itself: every live node returns the same set (address, health, enabled, weight)
+                            if let Some((n0, g0)) = &first {
+                                if *g0 != got {
+                                    ok = false;
+                                    last_diff = format!("service {}: node {} returns {:?} but node {} returns {:?}", SVCS[s], n0 + 1, g0, nd + 1, got);
+                                    break 'outer;
+                                }
+                            } else {
+                                first = Some((*nd, got.clone()));
+                            }
+                            // (2) and that set is the surviving registrations: nothing lost, nothing stale
+                            let cmp: BTreeSet<(String, u32, bool, bool, String)> =
+                                got.iter().map(|x| (x.0.clone(), x.1, x.2, x.3, if strict_weight { x.4.clone() } else { String::new() })).collect();
+                            if cmp != want {
                                 ok = false;
-                                let missing: Vec<_> = want.difference(&got).cloned().collect();
-                                let extra: Vec<_> = got.difference(&want).cloned().collect();
+                                let missing: Vec<_> = want.difference(&cmp).cloned().collect();
+                                let extra: Vec<_> = cmp.difference(&want).cloned().collect();
                                 last_diff = format!("service {} on node {}: missing {:?}, unexpected {:?}", SVCS[s], nd + 1, missing, extra);
                                 break 'outer;
                             }
@@ -595,7 +612,7 @@ pub fn main(ctx: &Ctx) -> i32 {
     let work = work_dir(ctx);
     let fin = || Finish {
         level: "exploration",
-        rule: "schedules (10..36 ops) on real 3-node clusters: HTTP register (explicit weights 2..4; weight 1 means 'not given' to the handler, so a re-registration with it would keep or reset the stored weight depending on routing) / deregister addressed to generated nodes over 3 services x 6 addresses, gRPC register / deregister of 6 further addresses through up to three held bi-stream connections attached to generated nodes, connection close, pauses, and (second class) kill -9 / restart of one node; HTTP heartbeats are kept going every 2 s for HTTP instances the model holds. Oracle: within 100 s after the last op every live node returns for every service exactly the model's surviving registrations (ip, port, healthy, enabled, weight) - instances of connections attached to a killed node and of closed connections are gone, everything else present - identically on all live nodes. non-trivial = one address written through two different nodes, or a node killed while holding gRPC registrations; distinct = hash of the schedule".into(),
+        rule: "schedules (10..36 ops) on real 3-node clusters: HTTP register (explicit weights 2..4; weight 1 means 'not given' to the handler) / deregister addressed to generated nodes over 3 services x 6 addresses, gRPC register / deregister of 6 further addresses through up to three held bi-stream connections attached to generated nodes, connection close, pauses, and (second class) kill -9 / restart of one node; HTTP heartbeats are kept going every 2 s for HTTP instances the model holds. Oracle: within 100 s after the last op (1) all live nodes return the same set (ip, port, healthy, enabled, weight) for every service and (2) that set is exactly the model's surviving registrations, healthy and enabled - instances of connections attached to a killed node, of closed connections and deregistered ones are gone, everything else present; weights are compared with the model only in schedules without a kill (after a kill a heartbeat may re-create an instance on the new responsible node and the server takes no weight from a beat). Saved replays are re-run first. non-trivial = one address written through two different nodes, or a node killed while holding gRPC registrations; distinct = hash of the schedule".into(),
         assumptions: vec![
             "message schedules between the nodes are sampled by real execution, not controlled ('delayed batch overtaking a remove' is reachable only by luck)".into(),
             "HTTP deregistration is only issued for addresses that are not connection-owned; gRPC addresses are written by one connection at a time (keeps the reference model exact)".into(),
@@ -617,6 +634,14 @@ pub fn main(ctx: &Ctx) -> i32 {
         return r;
     }
     let stats = Arc::new(Stats::default());
+    let w1 = work.clone();
+    if let Some((p, m)) = rerun_saved_replays::<Case, _>(ctx, &stats, 5, move |c| run_case(c, &w1, seed)) {
+        write_evidence(ctx, &stats, &fin(), 1);
+        println!("violation detail: {}", m);
+        println!("VIOLATION property={} replay={}", ctx.id, p.display());
+        std::fs::remove_dir_all(&work).ok();
+        return 1;
+    }
     let n_plain = ctx.tier.pick(10u32, 80u32);
     let n_kill = ctx.tier.pick(9u32, 60u32);
     let w2 = work.clone();
